@@ -32,6 +32,8 @@ func main() {
 		os.Exit(cmdReplay(os.Args[2:]))
 	case "run":
 		os.Exit(cmdRun(os.Args[2:]))
+	case "exec":
+		os.Exit(cmdExec(os.Args[2:]))
 	case "list":
 		for _, p := range allProps() {
 			fmt.Println(p.ID, len(p.Harnesses))
@@ -56,6 +58,7 @@ func cmdRun(args []string) int {
 	trace := fs.Bool("trace", false, "trace unsupported/panics")
 	workers := fs.Int("j", 1, "workers")
 	unwind := fs.Int("unwind", 200, "unwind bound")
+	budget := fs.Int("budget", 120, "wall-clock budget in seconds")
 	var params multiFlag
 	fs.Var(&params, "p", "param name=value")
 	fs.Parse(args)
@@ -63,6 +66,7 @@ func cmdRun(args []string) int {
 		usage()
 	}
 	pkg, fn := fs.Arg(0), fs.Arg(1)
+	deadline = time.Now().Add(time.Duration(*budget) * time.Second)
 	l, err := loadProgram([]string{"./" + pkg})
 	if err != nil {
 		fmt.Fprintln(os.Stderr, err)
@@ -179,6 +183,7 @@ func cmdCheck(args []string) int {
 	workers := fs.Int("j", 0, "workers")
 	trace := fs.Bool("trace", false, "trace")
 	only := fs.String("only", "", "run only this harness")
+	budget := fs.Int("budget", 0, "wall-clock budget in seconds per harness (0 = tier default)")
 	fs.Parse(args[1:])
 	if *tier == "" {
 		*tier = os.Getenv("VERIF_TIER")
@@ -223,6 +228,14 @@ func cmdCheck(args []string) int {
 		if h.ThoroughOnly && *tier != "thorough" {
 			continue
 		}
+		b := *budget
+		if b == 0 {
+			b = 900
+			if *tier == "thorough" {
+				b = 3600
+			}
+		}
+		deadline = time.Now().Add(time.Duration(b) * time.Second)
 		res, err := runHarness(l, h, *tier, known, *workers, *trace)
 		if err != nil {
 			fmt.Fprintln(os.Stderr, "harness:", err)
@@ -380,4 +393,51 @@ func writeEvidence(id, tier string, seed int, prop *PropSpec, results []*Harness
 	b, _ := json.MarshalIndent(ev, "", " ")
 	os.MkdirAll(filepath.Join(verifDir, "evidence"), 0o755)
 	os.WriteFile(filepath.Join(verifDir, "evidence", id+".json"), b, 0o644)
+}
+
+// cmdExec runs a harness inside the engine on the concrete inputs of a replay file.
+func cmdExec(args []string) int {
+	if len(args) < 1 {
+		usage()
+	}
+	b, err := os.ReadFile(args[0])
+	if err != nil {
+		fmt.Fprintln(os.Stderr, err)
+		return 2
+	}
+	var rf ReplayFile
+	if err := json.Unmarshal(b, &rf); err != nil {
+		fmt.Fprintln(os.Stderr, err)
+		return 2
+	}
+	l, err := loadProgram([]string{"./" + rf.Pkg})
+	if err != nil {
+		fmt.Fprintln(os.Stderr, err)
+		return 2
+	}
+	spec := HarnessSpec{Func: rf.Harness, Pkg: rf.Pkg, Quick: rf.Params}
+	if p := propByID(rf.Property); p != nil {
+		for _, h := range p.Harnesses {
+			if h.Func == rf.Harness {
+				spec.GoPolicy, spec.Unwind, spec.MaxSteps = h.GoPolicy, h.Unwind, h.MaxSteps
+			}
+		}
+	}
+	w, err := newWorker(l, spec, rf.Params, loadKnown(), len(args) > 1)
+	if err != nil {
+		fmt.Fprintln(os.Stderr, err)
+		return 2
+	}
+	w.e.concrete = rf.Inputs
+	if w.e.concrete == nil {
+		w.e.concrete = []ReplayInput{}
+	}
+	fmt.Printf("ZZ-REPLAY-START %s (engine, concrete)\n", rf.Harness)
+	w.run(nil, 0)
+	for _, v := range w.e.violations {
+		fmt.Printf("engine violation: %s %s site=%s\n", v.Kind, v.Name, v.Site)
+	}
+	res := &HarnessResult{Spec: spec, Stats: w.e.stats}
+	printResult(res)
+	return 0
 }
